@@ -84,6 +84,18 @@ fn indexmap_order_and_removals() {
     m.insert(2, 9);
     assert_eq!(m.get(&2), Some(&9));
     assert_eq!(m.get_index(0), Some((&0, &0)));
+    // split_off(at): tail moves out, head stays; truncate(n): first n stay (indexmap semantics)
+    let mut m: IndexMap<u8, u8> = IndexMap::new();
+    for k in [5u8, 6, 7, 8] {
+        m.insert(k, k);
+    }
+    let tail = m.split_off(3);
+    assert_eq!(tail.iter().map(|(k, _)| *k).collect::<Vec<_>>(), vec![8]);
+    assert_eq!(m.iter().map(|(k, _)| *k).collect::<Vec<_>>(), vec![5, 6, 7]);
+    m.truncate(1);
+    assert_eq!(m.iter().map(|(k, _)| *k).collect::<Vec<_>>(), vec![5]);
+    m.truncate(4);
+    assert_eq!(m.len(), 1);
 }
 #[test]
 fn vec_and_deque() {
